@@ -997,8 +997,11 @@ def run(ctx):
                             "root oracle bin/cert (Properties_ORACLE.v) judges every reported violation",
                             "harness/c04_radius.c builds polynomial and approximations through the public constructors and calls the primitives of the library under ASan/UBSan",
                             "the model expressions of the coded radii (checks/C04.py model_*) are hand-written from newton.c / general-radius.c / secular-equation.c and pinned to the exported values in the exact-Horner regime only",
-                            "rounding inside the library (p^ versus p(z)) is covered by the oracle validation, not by a proof about floating-point Horner"]}
-    return ctx.finish("proof", cov, ["the evaluation-error hypothesis |p^ - p(z)| <= E of C04_newton_model_sound is C14's statement, not proved here",
+                            "rounding inside mps_fnewton/mps_dnewton/mps_mnewton: theorems of Radius/NewtonCodedProofs.v under the hypothesis std_round (standard model of rounding, no under/overflow); the transcription Radius/NewtonCoded.v is replayed bit for bit (bin/newtonfl: Flocq binary64 / C12 DPE model, extraction ExtrOcamlBasic+ExtrOcamlNativeString, hand-written ocaml/newtonfl_driver.ml) against the library through harness/c04_newtonfl.c (-Wl,--wrap=cplx_mod,cdpe_mod,mpc_get_cdpe recording wrappers)",
+                            "the mpf Horner loops of mps_mnewton are not modelled bit for bit (their results p^, p1^ are read from the recorded mpc_get_cdpe calls and judged exactly); the sparse path of mps_mnewton is not modelled",
+                            "the numeric instance of COND (which degrees the constant 4 covers) is evaluated in exact rationals by the check, not proved in Coq"]}
+    return ctx.finish("proof", cov, ["the relative error eta of the computed derivative is a hypothesis of C04_fnewton_coded_sound_partial / C04_dnewton_coded_sound_partial",
+                                      "std_round (standard model of rounding for double / DPE arithmetic) is a hypothesis; its measurable parts are measured on every run",
                                       "exactly-k roots per connected component is proved for singleton components only (C04_components_partial); validated by the oracle for all components",
                                       "undecided oracle answers are counted, never reported"])
 
@@ -1306,6 +1309,7 @@ def newtonfl_tie(ctx):
     for c, ml in zip(calls, mout):
         kind = c["out"][0]; n = c["n"]; m = ml.split()
         if c.get("skip"): st["skipped:" + c["skip"]] += 1; continue
+        if n == 0: st["skipped:degree-0-after-deflation"] += 1; continue      # outside the domain of the model (0 < n)
         if m and m[0] == "ERR": raise vf.InfraError("newtonfl driver: %s on %s" % (ml, c["cmd"]))
         if kind == "XF":
             br = {"0": "le1", "1": "gt1", "2": "gt1-den0"}[m[0]]
